@@ -172,10 +172,10 @@ func (s *Server) PushBlock(blk *pbbstream.Block) error {
 
 	s.SetHeadInfo(blk.Number, blk.Id, blk.Time(), blk.LibNum)
 	if s.buffer != nil && s.bufferSize > 0 {
-		if s.buffer.Len() >= s.bufferSize {
+		s.buffer.AppendHead(blk)
+		if s.buffer.Len() > s.bufferSize {
 			s.buffer.Delete(s.buffer.Tail())
 		}
-		s.buffer.AppendHead(blk)
 	}
 
 	for _, sub := range s.subscriptions {
